@@ -504,6 +504,9 @@ def check(case, ctx):
                 if op == 'set_axis_copy':
                     def fn():
                         return ds.set_axis(vals, axis=ax, inplace=False)
+                elif ax == 0:
+                    def fn():
+                        ds.set_axis(vals)             # axis=0 is the default
                 else:
                     def fn():
                         ds.set_axis(vals, axis=ax)
